@@ -86,6 +86,14 @@ func H_C13_unsupported() {
 		vAssert("well-formed-if-success", p.err == "" && n == len(bs))
 	}
 	vAssert("fail-stop", err != nil)
+	// the same holds for every further attempt on an encoder / serializer that has already refused the value
+	e := NewEncoder(nil, nameMap)
+	s := NewSerializer(nil, nameMap)
+	for i := 0; i < 2; i++ {
+		_, err1 := e.Encode(v)
+		_, err2 := s.ToBytes(v)
+		vAssert("fail-stop-again", err1 != nil && err2 != nil)
+	}
 }
 
 // H_C13_good_neighbours: the same shapes with a supported value in place of the bad one still encode.
